@@ -6,16 +6,20 @@
      - every byte of every data/expr item, zeros for bss (the allocator fills fresh blocks with 0xA5),
      - ref items hold Addr(target) + disp where Addr(item j) is taken from the model's layout
        (address of the head of j's section + offset of j), Addr(import/function) from item->addr,
-     - lref items hold A(l1) + disp, or A(l1) - A(l2) + disp, where A(l) is what a one-label reference
-       added by the harness (la1..la3, each its own named section after the sequence) holds once the
-       function of the labels has been prepared (interpreted once / generated).
+     - lref items hold A(l1) + disp, or A(l1) - A(l2) + disp, where A(l) is what `laddr` of the label gives
+       inside the function of the labels (the function stores laddr L1..L3 into a buffer when it is run:
+       interpreted once / generated).  The harness adds no lref item of its own, so whether the lrefs of a
+       module get filled depends on the sequence alone.
+   Form 1 (text): the module under test arrives as MIR text and is read by MIR_scan_string; the sequence
+   items are the last <nitems> items of the scanned module.
    Runs under ASan: writes outside the requested block are reported by the sanitizer.
 
-   Input (stdin): C <case> <engine> <nitems> (engine 0 interp, 1 gen, 2 lazy gen, 3 lazy bb gen), then per item
+   Input (stdin): C <case> <engine> <nitems> <form> (engine 0 interp, 1 gen, 2 lazy gen, 3 lazy bb gen), then per item
      I <kind> <named> <type> <n> <disp> <l1> <l2> <sec> <off> <len> <secsize|-1> <tkind> <tidx> <edisp> <nbytes> {byte}* <ninit> {byte}*
        (bytes: expected contents of data/expr; init: the bytes the item is declared with / the expression returns)
-   kind 0 data 1 bss 2 ref 3 lref 4 expr 5 proto; type index in MIR_T_I8..MIR_T_P order;
-   tkind 0 item 1 ext 2 mod 3 func (ref only); disp is declared, edisp is the displacement the model expects; then E.
+   kind 0 data 1 bss 2 ref 3 lref 4 expr 5 proto 6 string (init = str.s, ninit = str.len); type index in MIR_T_I8..MIR_T_P order;
+   tkind 0 item 1 ext 2 mod 3 func (ref only); disp is declared, edisp is the displacement the model expects;
+   for form 1 a line  T <hex of the module text>;  then E.
    Output: P <case> before every case, FAIL <case> <item> <key> <text>, final DONE <cases> <items> <fails>. */
 #include <stdio.h>
 #include <stdlib.h>
@@ -81,7 +85,7 @@ static void MIR_NO_RETURN trap (MIR_error_type_t t, const char *fmt, ...) {
 
 /* ---------------- one case ---------------------------------------------------------------------------- */
 #define MAXI 8
-#define MAXB 64
+#define MAXB 300
 typedef struct {
   int kind, named, type, n, disp, l1, l2, sec, off, len, secsize, tkind, tidx, edisp, nbytes;
   unsigned char bytes[MAXB], init[MAXB];
@@ -95,7 +99,9 @@ static int bad;
 static MIR_type_t types[12] = {MIR_T_I8, MIR_T_U8, MIR_T_I16, MIR_T_U16, MIR_T_I32, MIR_T_U32,
                                MIR_T_I64, MIR_T_U64, MIR_T_F, MIR_T_D, MIR_T_LD, MIR_T_P};
 static const char *tname[12] = {"i8", "u8", "i16", "u16", "i32", "u32", "i64", "u64", "f", "d", "ld", "p"};
-static const char *kname[6] = {"data", "bss", "ref", "lref", "expr", "proto"};
+static const char *kname[7] = {"data", "bss", "ref", "lref", "expr", "proto", "string"};
+static int form;
+static char *text; /* form 1: the module as MIR text */
 static int64_t ext_buf[4], modd_init[2] = {1, 2};
 
 #define FAIL(i, key, ...) do { printf ("FAIL %ld %d %s ", caseno, i, key); printf (__VA_ARGS__); printf ("\n"); nfail++; bad = 1; } while (0)
@@ -111,6 +117,7 @@ static void describe (char *buf) { /* the sequence in MIR-like text, for message
     case 2: sprintf (b, "%sref", x->named ? "N:" : ""); break;
     case 3: sprintf (b, "%slref", x->named ? "N:" : ""); break;
     case 4: sprintf (b, "%sexpr %s", x->named ? "N:" : "", tname[x->type]); break;
+    case 6: sprintf (b, "%sstring#%d(%d)", x->named ? "N:" : "", x->n, x->ninit); break;
     default: sprintf (b, "proto"); break;
     }
     if (i > 1) strcat (buf, "; ");
@@ -142,12 +149,12 @@ static MIR_item_t expr_func (MIR_context_t ctx, int type, const unsigned char *b
 static void run_case (void) {
   MIR_context_t ctx = MIR_init2 (&r_alloc, NULL);
   MIR_module_t m0, m;
-  MIR_item_t modd, imp_ext, imp_mod, lf, fw[MAXI + 2], efunc[12], la[4];
+  MIR_item_t modd, imp_ext, imp_mod, lf, fw[MAXI + 2], efunc[12];
   MIR_label_t L[4];
   MIR_type_t i64 = MIR_T_I64;
-  MIR_reg_t a, r;
+  MIR_reg_t a, out, r, t;
   char name[16], seq[512];
-  int has_lref = 0;
+  int64_t AL[4] = {0, 0, 0, 0}; /* AL[i-1] = A(L_i) */
   volatile int phase = 0;
 
   MIR_set_error_func (ctx, trap);
@@ -167,7 +174,21 @@ static void run_case (void) {
   MIR_finish_module (ctx);
   MIR_load_module (ctx, m0);
   phase = 1;
-  /* the module under test: prologue (imports, forwards, functions), the sequence, epilogue (la1..la3) */
+  /* the module under test: prologue (imports, forwards, functions), then the sequence */
+  if (form == 1) {
+    int k = 0, total = 0;
+    MIR_item_t item;
+    MIR_scan_string (ctx, text);
+    m = DLIST_TAIL (MIR_module_t, *MIR_get_module_list (ctx));
+    lf = NULL;
+    for (item = DLIST_HEAD (MIR_item_t, m->items); item != NULL; item = DLIST_NEXT (MIR_item_t, item)) {
+      total++;
+      if (item->item_type == MIR_func_item && strcmp (item->u.func->name, "lf") == 0) lf = item;
+    }
+    for (item = DLIST_HEAD (MIR_item_t, m->items); item != NULL; item = DLIST_NEXT (MIR_item_t, item))
+      if (++k > total - nitems) it[k - (total - nitems)].item = item;
+    if (lf == NULL || total < nitems) { trap_armed = 0; FAIL (0, "machinery", "scanned module has %d items, no lf", total); return; }
+  } else {
   m = MIR_new_module (ctx, "m");
   imp_ext = MIR_new_import (ctx, "ext1");
   imp_mod = MIR_new_import (ctx, "modd");
@@ -177,15 +198,21 @@ static void run_case (void) {
       sprintf (name, "d%d", it[i].tidx);
       fw[it[i].tidx] = MIR_new_forward (ctx, name);
     }
-  lf = MIR_new_func (ctx, "lf", 1, &i64, 1, MIR_T_I64, "a");
+  lf = MIR_new_func (ctx, "lf", 1, &i64, 2, MIR_T_I64, "a", MIR_T_I64, "out");
   a = MIR_reg (ctx, "a", lf->u.func);
+  out = MIR_reg (ctx, "out", lf->u.func);
   r = MIR_new_func_reg (ctx, lf->u.func, MIR_T_I64, "r");
+  t = MIR_new_func_reg (ctx, lf->u.func, MIR_T_I64, "t");
   for (int i = 1; i <= 3; i++) L[i] = MIR_new_label (ctx);
   MIR_append_insn (ctx, lf, MIR_new_insn (ctx, MIR_MOV, MIR_new_reg_op (ctx, r), MIR_new_reg_op (ctx, a)));
   MIR_append_insn (ctx, lf, MIR_new_insn (ctx, MIR_BT, MIR_new_label_op (ctx, L[2]), MIR_new_reg_op (ctx, r)));
   for (int i = 1; i <= 3; i++) {
     MIR_append_insn (ctx, lf, L[i]);
     MIR_append_insn (ctx, lf, MIR_new_insn (ctx, MIR_ADD, MIR_new_reg_op (ctx, r), MIR_new_reg_op (ctx, r), MIR_new_int_op (ctx, i)));
+  }
+  for (int i = 1; i <= 3; i++) { /* A(L_i): what laddr gives in this function under this engine */
+    MIR_append_insn (ctx, lf, MIR_new_insn (ctx, MIR_LADDR, MIR_new_reg_op (ctx, t), MIR_new_label_op (ctx, L[i])));
+    MIR_append_insn (ctx, lf, MIR_new_insn (ctx, MIR_MOV, MIR_new_mem_op (ctx, MIR_T_I64, 8 * (i - 1), out, 0, 1), MIR_new_reg_op (ctx, t)));
   }
   MIR_append_insn (ctx, lf, MIR_new_ret_insn (ctx, 1, MIR_new_reg_op (ctx, r)));
   MIR_finish_func (ctx);
@@ -204,13 +231,14 @@ static void run_case (void) {
       tg = x->tkind == 1 ? imp_ext : x->tkind == 2 ? imp_mod : x->tkind == 3 ? lf : x->tidx < i ? it[x->tidx].item : fw[x->tidx];
       x->item = MIR_new_ref_data (ctx, nmp, tg, x->disp);
       break;
-    case 3: x->item = MIR_new_lref_data (ctx, nmp, L[x->l1], x->l2 ? L[x->l2] : NULL, x->disp); has_lref = 1; break;
+    case 3: x->item = MIR_new_lref_data (ctx, nmp, L[x->l1], x->l2 ? L[x->l2] : NULL, x->disp); break;
     case 4: x->item = MIR_new_expr_data (ctx, nmp, efunc[x->type]); break;
+    case 6: x->item = MIR_new_string_data (ctx, nmp, (MIR_str_t){(size_t) x->ninit, (const char *) x->init}); break;
     default: x->item = MIR_new_proto (ctx, nmp, 0, NULL, 0); break;
     }
   }
-  for (int i = 1; i <= 3; i++) { sprintf (name, "la%d", i); la[i] = MIR_new_lref_data (ctx, name, L[i], NULL, 0); }
   MIR_finish_module (ctx);
+  }
   phase = 3;
   recording = 1;
   MIR_load_module (ctx, m);
@@ -219,12 +247,12 @@ static void run_case (void) {
   MIR_link (ctx, engine == 0 ? MIR_set_interp_interface : engine == 1 ? MIR_set_gen_interface : engine == 2 ? MIR_set_lazy_gen_interface : MIR_set_lazy_bb_gen_interface, NULL);
   phase = 5;
   if (engine == 0) { /* prepare the function of the labels: interpret it once */
-    MIR_val_t res, arg;
-    arg.i = 0;
-    MIR_interp_arr (ctx, lf, &res, 1, &arg);
+    MIR_val_t res, args[2];
+    args[0].i = 0; args[1].i = (int64_t) AL;
+    MIR_interp_arr (ctx, lf, &res, 2, args);
     if (res.i != 6) FAIL (0, "machinery", "lf returned %ld", (long) res.i);
   } else {
-    int64_t v = ((int64_t (*) (int64_t)) lf->addr) (0);
+    int64_t v = ((int64_t (*) (int64_t, int64_t *)) lf->addr) (0, AL);
     if (v != 6) FAIL (0, "machinery", "generated lf returned %ld", (long) v);
   }
   phase = 6;
@@ -257,9 +285,10 @@ static void run_case (void) {
     switch (x->kind) {
     case 0:
     case 4:
+    case 6:
       for (int j = 0; j < x->nbytes; j++)
         if (p[j] != x->bytes[j]) {
-          FAIL (i, x->kind == 0 ? "data_bytes" : "expr_value", "%s item %d byte %d is 0x%02x expected 0x%02x [%s]", kname[x->kind], i, j, p[j], x->bytes[j], seq);
+          FAIL (i, x->kind == 0 ? "data_bytes" : x->kind == 6 ? "string_bytes" : "expr_value", "%s item %d byte %d is 0x%02x expected 0x%02x [%s]", kname[x->kind], i, j, p[j], x->bytes[j], seq);
           break;
         }
       break;
@@ -279,8 +308,8 @@ static void run_case (void) {
     case 3: {
       int64_t got, A1, A2 = 0, want;
       memcpy (&got, p, 8);
-      memcpy (&A1, la[x->l1]->addr, 8);
-      if (x->l2) memcpy (&A2, la[x->l2]->addr, 8);
+      A1 = AL[x->l1 - 1];
+      if (x->l2) A2 = AL[x->l2 - 1];
       want = A1 - A2 + x->edisp;
       if (got != want)
         FAIL (i, x->l2 ? "lref_diff" : "lref_addr", "lref item %d (L%d, L%d, disp %d) holds %ld, but A(L%d)%s%+d = %ld with A(L%d) = %ld [%s]", i, x->l1,
@@ -293,7 +322,6 @@ static void run_case (void) {
   if (engine >= 1) MIR_gen_finish (ctx);
   MIR_finish (ctx);
   trap_armed = 0;
-  (void) has_lref; (void) imp_mod;
 }
 
 int main (void) {
@@ -301,7 +329,7 @@ int main (void) {
   __asan_set_error_report_callback (asan_cb);
   while (scanf ("%7s", tag) == 1) {
     if (tag[0] == 'C') {
-      if (scanf ("%ld %d %d", &caseno, &engine, &nitems) != 3 || nitems > MAXI) return 3;
+      if (scanf ("%ld %d %d %d", &caseno, &engine, &nitems, &form) != 4 || nitems > MAXI) return 3;
       for (int i = 1; i <= nitems; i++) {
         it_t *x = &it[i];
         if (scanf ("%7s", tag) != 1 || tag[0] != 'I') return 3;
@@ -311,6 +339,14 @@ int main (void) {
         if (scanf ("%d", &x->ninit) != 1 || x->ninit > MAXB) return 3;
         for (int j = 0; j < x->ninit; j++) { int b; if (scanf ("%d", &b) != 1) return 3; x->init[j] = (unsigned char) b; }
         x->item = NULL;
+      }
+      if (form == 1) {
+        static char hex[1 << 16], txt[1 << 15];
+        size_t n;
+        if (scanf ("%7s %65535s", tag, hex) != 2 || tag[0] != 'T') return 3;
+        n = strlen (hex) / 2;
+        for (size_t j = 0; j < n; j++) { unsigned v; sscanf (hex + 2 * j, "%2x", &v); txt[j] = (char) v; }
+        txt[n] = 0; text = txt;
       }
       if (scanf ("%7s", tag) != 1 || tag[0] != 'E') return 3;
       ncase++; nitem_total += nitems; bad = 0; asan_hits = 0;
